@@ -74,3 +74,53 @@ void h_pop_vs_thieves(void) {
   __CPROVER_assert(AGREE || g_lock_mine, "pop: base is written by the owner only under the lock");
   VERIF_CANARY();
 }
+
+/* ================================================================== the thief's side: myth_queue_take with the OWNER as
+ * environment.  While the thief holds q->lock the owner can only push (top grows) and pop through its lock-free fast
+ * path; a pop that cannot use the fast path waits for the lock, i.e. stays "in flight" (it has stored top - 1) for the
+ * rest of the thief's critical section.  Ghosts: g_ct committed top (slots >= g_ct are gone), g_oif in {0,1} an owner
+ * pop is in flight, agreement q->top == g_ct - g_oif.  The owner's fast path commits a pop only after having read a
+ * base value b' with b' + 1 < new top; b' is any value base had since the previous hook (window g_bmin): a committed
+ * pop therefore leaves g_ct >= g_bmin + 2.
+ */
+int g_ct, g_oif, g_bmin, g_tlock;
+#define OAGREE (0 <= g_ct && g_ct <= QMAX && (g_oif == 0 || g_oif == 1) && Q.top == g_ct - g_oif)
+#define OBMIN(oldmin) ((oldmin) < Q.base ? (oldmin) : Q.base)
+#define O_RULE (g_ct >= (__CPROVER_old(g_ct) < OBMIN(__CPROVER_old(g_bmin)) + 2 ? __CPROVER_old(g_ct) : OBMIN(__CPROVER_old(g_bmin)) + 2) && g_bmin == Q.base)
+void env_owner(void)
+  __CPROVER_requires(OAGREE)
+  __CPROVER_assigns(Q.top, g_ct, g_oif, g_bmin)
+  __CPROVER_ensures(OAGREE && O_RULE);
+void ofence_contract(void)
+  __CPROVER_requires(OAGREE)
+  __CPROVER_assigns(Q.top, g_ct, g_oif, g_bmin)
+  __CPROVER_ensures(OAGREE && O_RULE);
+void tlock_contract(myth_spinlock_t * l)
+  __CPROVER_requires(l == &Q.lock && !g_tlock && OAGREE)
+  __CPROVER_assigns(Q.top, g_ct, g_oif, g_bmin, g_tlock)
+  __CPROVER_ensures(OAGREE && O_RULE && g_tlock == 1);
+void tunlock_contract(myth_spinlock_t * l)
+  __CPROVER_requires(l == &Q.lock && g_tlock == 1)
+  __CPROVER_assigns(g_tlock) __CPROVER_ensures(g_tlock == 0);
+static inline void verif_rd_top(volatile void * p) { if (p == (volatile void *)&Q.top) env_owner(); }
+void (*keep_env2)(void) = env_owner;
+
+void h_take_vs_owner(void) {
+  Q.size = nondet_int(); Q.base = nondet_int(); g_ct = nondet_int(); g_oif = nondet_int();
+  __CPROVER_assume(2 <= Q.size && Q.size <= QMAX && 0 <= Q.base && Q.base <= Q.size);
+  __CPROVER_assume(0 <= g_ct && g_ct <= Q.size && (g_oif == 0 || g_oif == 1) && g_ct - g_oif >= 0);
+  Q.top = g_ct - g_oif; Q.ptr = BUF; g_tlock = 0; g_bmin = Q.base;
+  { int i; for (i = 0; i < QMAX; i++) BUF[i] = (myth_thread_t)&CELL[i & 3]; }
+  int base0 = Q.base;
+  myth_thread_t r = myth_queue_take(&Q);
+  __CPROVER_assert(!g_tlock, "take: queue lock released on every return path");
+  if (r != 0) {
+    __CPROVER_assert(Q.base == base0 + 1, "take: the thief takes slot base and advances base exactly once");
+    __CPROVER_assert(base0 < g_ct, "take: the slot returned by take has not been popped by the owner (no thread is resumed twice)");
+    env_owner();
+    __CPROVER_assert(base0 < g_ct, "take: the slot returned by take cannot be popped by the owner's fast path afterwards");
+  } else {
+    __CPROVER_assert(Q.base == base0, "take: a failed steal leaves base where it was (nothing is lost)");
+  }
+  VERIF_CANARY();
+}
